@@ -477,6 +477,10 @@ pub fn sel(r: &mut Ref, s: &Sel) -> String {
         o.push_str(&format!(" {kw} {}{f}", if j.lateral { "LATERAL " } else { "" }));
         if !j.on.is_empty() {
             o.push_str(&format!(" ON {}", conj(r, &j.on)));
+        } else if !(r.d == Dialect::Postgres && j.kind == JoinKind::Cross) {
+            // every join built through the API carries a condition: an empty conjunction is TRUE
+            // (PostgreSQL's CROSS JOIN takes none: listed finding KF-C08-postgres-cross-join-on)
+            o.push_str(" ON TRUE");
         }
     }
     if !s.wheres.is_empty() {
